@@ -1600,7 +1600,7 @@ void AbstractDOMParser::entityDecl
 (
     const   DTDEntityDecl&  entityDecl
     , const bool
-    , const bool
+    , const bool            isIgnored
 )
 {
     DOMEntityImpl* entity = (DOMEntityImpl *) fDocument->createEntity(entityDecl.getName());
@@ -1610,11 +1610,16 @@ void AbstractDOMParser::entityDecl
     entity->setNotationName(entityDecl.getNotationName());
     entity->setBaseURI(entityDecl.getBaseURI());
 
-    DOMEntityImpl *previousDef = (DOMEntityImpl *)
-	    fDocumentType->getEntities()->setNamedItem( entity );
+    // XML 1.0, 4.2: the first declaration of an entity is binding; a later
+    // declaration of the same name is kept in the internal subset text only
+    if (!isIgnored)
+    {
+        DOMEntityImpl *previousDef = (DOMEntityImpl *)
+	        fDocumentType->getEntities()->setNamedItem( entity );
 
-    if (previousDef)
-        previousDef->release();
+        if (previousDef)
+            previousDef->release();
+    }
 
     if (fDocumentType->isIntSubsetReading())
     {
@@ -1663,6 +1668,8 @@ void AbstractDOMParser::entityDecl
         fInternalSubset.append(chCloseAngle);
     }
 
+    if (isIgnored)
+        entity->release();
 }
 
 void AbstractDOMParser::resetDocType()
